@@ -276,6 +276,9 @@ void conv_family(sink& out)
     float_to<Tag, SI<L, -4>>(out, -4);
     float_to<Tag, SI<L, 3>>(out, 3);
     float_to<Tag, SI<L, -20>>(out, -20);
+    // integer destinations that are not built-in types
+    float_to<Tag, cnl::elastic_integer<20>>(out, 0);
+    float_to<Tag, cnl::elastic_integer<40>>(out, 0);
     scaled_to<Tag, SI<L, -4>, SI<L, 0>>(out, 11);
     scaled_to<Tag, SI<std::int64_t, -20>, SI<L, -14>>(out, 13);
     scaled_to<Tag, SI<std::int32_t, -3>, SI<L, 2>>(out, 14);
